@@ -1189,7 +1189,7 @@ class ASTBuilder:
             mod: Optional[ast.Module] = None
             try:
                 mod = parseFile(path)
-            except (SyntaxError, ValueError, RecursionError, MemoryError) as e:
+            except (SyntaxError, ValueError, RecursionError, MemoryError, OSError) as e:
                 ctx.report(f"cannot parse file, {e}")
 
             self.ast_cache[path] = mod
